@@ -1,6 +1,7 @@
 package main
 
 import (
+	"hash/crc32"
 	"encoding/binary"
 	"fmt"
 	"os"
@@ -128,6 +129,13 @@ func (s *seqStore) open() (err error) {
 	want := int64(len(s.cfg.served))
 	for i := 0; atomic.LoadInt64(&s.bgdone) < want; i++ {
 		time.Sleep(20 * time.Microsecond)
+		theHub.mu.Lock()
+		f := theHub.fatal
+		theHub.mu.Unlock()
+		if f != "" {
+			// the background hint check of a bucket ended in a fatal error (the real process exits there)
+			return fatalError{f}
+		}
 		if i > 500000 {
 			panic("open: background hint check did not finish")
 		}
@@ -186,6 +194,10 @@ func indepScan(path string) (items []scanItem, size int64, ok bool) {
 		vsz := int(binary.LittleEndian.Uint32(data[off+20:]))
 		if ksz == 0 || ksz > 250 || vsz > 1<<26 || off+24+ksz+vsz > len(data) {
 			off += 256 // unreadable block
+			continue
+		}
+		if crc32.ChecksumIEEE(data[off+4:off+24+ksz+vsz]) != binary.LittleEndian.Uint32(data[off:]) {
+			off += 256 // a header that looks sane over bytes that are not its record (torn or partly overwritten)
 			continue
 		}
 		items = append(items, scanItem{uint32(off), append([]byte{}, data[off+24:off+24+ksz]...), ver, flag, uint32(vsz)})
